@@ -342,7 +342,10 @@ func afterClass(r *cserve.Result) string {
 }
 
 func main() {
-	if len(os.Args) > 1 && os.Args[1] == "replay" {
+	if len(os.Args) > 2 && os.Args[1] == "replay" {
+		if pureProgramsReplay(os.Args[2]) {
+			return
+		}
 		replay(os.Args[2])
 		return
 	}
@@ -700,17 +703,24 @@ func main() {
 	r.MergeHist("undefined_symbols (objects referencing them; other modules' API excluded)", sres.undef)
 	r.Sample(map[string]any{"objects": sres.jobs})
 	exhaustive := int(ndone.Load()) >= len(items)-countRaw(items)
+	// PROGRAMS: pure methods of generated programs (progen `pure` family: every way a write could be
+	// attempted from inside a pure method; near-misses must be rejected, accepted ones are executed by
+	// the reference interpreter with the purity monitor on), plus the pure methods of other families.
+	progPureCalls, progPrograms := pureProgramsPart(r)
+	r.Add("programs_pure_calls_monitored", progPureCalls)
+	r.Add("programs_accepted_with_a_pure_call", progPrograms)
 	r.Finish(ev.Coverage{
-		Evaluations:        pureCalls + sres.symbols + sres.sections,
-		DistinctNontrivial: int64(len(states)),
+		Evaluations:        pureCalls + sres.symbols + sres.sections + progPureCalls,
+		DistinctNontrivial: int64(len(states)) + progPrograms,
 		States:             int64(len(states)),
 		Transitions:        steps,
 		Rule: "evaluations = pure-method invocations checked for writes (dynamic half) + symbols and sections enumerated and judged (static half); " +
-			"distinct_nontrivial = states = distinct (package, 128-bit hash of the object bytes) states in which every pure method was called (objects above 1 MiB: one per step); transitions = wuffs calls made by the walks",
+			"distinct_nontrivial = distinct (package, 128-bit hash of the object bytes) states in which every pure method was called (objects above 1 MiB: one per step) + accepted generated programs that made a monitored pure call; states as in the first term; transitions = wuffs calls made by the walks; "+
+			"evaluations also count the pure calls of generated programs monitored by the reference interpreter (receiver hash and every by-reference argument compared around each call, stores inside a pure frame flagged)",
 		Exhaustive: exhaustive,
 		Explanation: "STATIC (level `other`: exhaustive enumeration of a finite artefact): objects = {" + strings.Join(pr.compilers, "; ") + " (-O2 unless stated; in quick the one-module objects use the last compiler only)} x {extern, WUFFS_CONFIG__STATIC_FUNCTIONS (all API functions kept alive through one const table)} x {monolithic; extern: every module alone" +
 			map[bool]string{true: "; static: every module with the modules it uses + base", false: ""}[pr.perModuleStatic] + "}, no sanitizers, default (PIE) code model unless -fno-pie is stated. Oracle by section name/flags, symbol table and relocation owners. " +
-			"DYNAMIC (level `exploration`): byte-by-byte walks (64-byte destination windows: short-write states too) of every std struct over valid seeds, a failing 1-byte deviation, 7-byte pieces, hashers with 1- and 37-byte updates, and uninitialised objects; PureCheck after every call.",
+			"DYNAMIC (level `exploration`): byte-by-byte walks (64-byte destination windows: short-write states too) of every std struct over valid seeds, a failing 1-byte deviation, 7-byte pieces, hashers with 1- and 37-byte updates, and uninitialised objects; PureCheck after every call. PROGRAMS: the progen `pure` family (direct / element / nested-element stores, stores through slices of 1-3 level array fields, ptr-to-array, copy_from_slice!/bulk_memset!, impure calls, writable by-reference arguments, each as pub and as pri behind a pure wrapper) and the pure methods of seeds, calls, facts, refine, ptr: rejected by the checker or executed with the purity monitor.",
 		Extra: map[string]any{
 			"seconds": map[string]any{"generated_c_available": genS, "server_built": buildS, "static_half": staticS, "dynamic_half": dynS, "compile_by_object": sres.seconds},
 			"static_allocated_section_bytes_monolithic":                                         sec,
